@@ -224,11 +224,17 @@ func cmdWGWitness(args []string) error {
 		}
 		close(gate)
 		g.Wait()
+		split := false
 		for j := 1; j < k; j++ {
 			if mgrs[j] != mgrs[0] {
 				fail("manager-identity", fmt.Sprintf("%d goroutines asked for the manager of one scope at once and got different managers", k))
+				split = true
 				break
 			}
+		}
+		if split {
+			executed++
+			continue // units added through one manager and given back through another would only crash the driver
 		}
 		mgr := mgrs[0]
 		// concurrent first Add
